@@ -20,7 +20,7 @@ VARIABLES l,          \* next line
           bad
 vars == <<l, outst, called, returned, rel, obsEnd, bad>>
 
-Allowed == {"resp", "timeout", "ctx", "closed", "nostreams", "builderr", "writeerr"}
+Allowed == {"resp", "frameerr", "timeout", "ctx", "closed", "nostreams", "builderr", "writeerr"}
 OK == "none"
 
 Init == /\ l = 1 /\ outst = {} /\ called = {} /\ returned = {} /\ rel = <<>> /\ obsEnd = {} /\ bad = OK
